@@ -130,6 +130,7 @@ def rule_MP3(rep, prog):
     rid = rep.rule("C08-MP3", "kernel semaphore wrappers: _dispatch_sema4_wait returns only after sem_wait succeeded (EINTR is retried); "
                    "_dispatch_sema4_timedwait reports a timeout only for ret == -1 with errno ETIMEDOUT and success only for ret != -1", floor=3)
     M1 = 0xffffffff
+    ET = consts.get(["ETIMEDOUT"], unit="shims/lock", includes=("errno.h",))["ETIMEDOUT"]
     def ret_tests(fn, call):
         return [i for i in fn.all_insts() if i.op == "icmp" and i.d["pred"] in ("eq", "ne") and
                 any(fn.inst(o) is call for o in i.ops) and any(o[0] == "c" and o[1] in (M1, (1 << 64) - 1) for o in i.ops)]
@@ -169,6 +170,20 @@ def rule_MP3(rep, prog):
                 v = None if b is None else ("c", 1 if b else 0)
             f = failed(cx, tests)
             if v == ("c", 1):
+                # the failure must be the deadline: errno compared equal to ETIMEDOUT on this path (an interrupted wait - EINTR - is retried, never reported)
+                et = False
+                for iid, tv in cx.truth.items():
+                    ii = fn.insts[iid]
+                    if ii.op == "icmp" and ii.d["pred"] in ("eq", "ne") and tv == (ii.d["pred"] == "eq") and any(o[0] == "c" and o[1] == ET for o in ii.ops):
+                        l = [fn.inst(o) for o in ii.ops if o[0] == "i"]
+                        if l and l[0] is not None and l[0].op == "load":
+                            src = fn.inst(l[0].d["ptr"]["base"]) if l[0].d.get("ptr") else None
+                            if src is not None and src.op == "call" and src.callee == "__errno_location":
+                                et = True
+                rep.require(rid, et, inst.loc, fn.name, "timedwait-timeout-without-ETIMEDOUT",
+                            "_dispatch_sema4_timedwait reports a timeout on a path where errno was not found equal to ETIMEDOUT (e.g. EINTR from a signal handler): "
+                            "dispatch_semaphore_wait returns non-zero before its deadline and a signal arriving before the real deadline is not picked up by "
+                            "that waiter (path %s)" % path, sample={"returns": "timeout", "errno": "ETIMEDOUT"})
                 rep.require(rid, f is True, inst.loc, fn.name, "timedwait-timeout-without-failure",
                             "_dispatch_sema4_timedwait reports a timeout on a path where sem_timedwait was not established to have failed (ret == -1): a "
                             "stale errno turns a consumed wake-up into a timeout and the signal is lost (path %s)" % path, sample={"returns": "timeout"})
